@@ -22,6 +22,7 @@ import Fir.Proofs.TwoPassLemmas
 import Fir.Proofs.IdealFilterLemmas
 import Fir.Proofs.TwoPass16Lemmas
 import Fir.Proofs.FloatLemmas
+import Fir.Proofs.IeeeLemmas
 
 namespace Fir.C01
 open Fir
@@ -331,5 +332,23 @@ example : Fir.Flt.RelErr id 0 := by intro y; simp
 
 /-! ### non-vacuity -/
 example : passInt .u8 [8192, 8192] [10, 21] 14 = 16 := by decide
+
+/-! ### the premises about rounding discharged for IEEE-754 round-to-nearest-even (`Fir.Ieee.flP`) -/
+
+section IeeeInstances
+open Fir.Ieee Fir.Flt
+/-- `pass_err_f64` for binary64 arithmetic as IEEE-754 defines it (`flP 53`: round-to-nearest-even, proved
+    to have relative error 2^-53): no premise about the rounding function is left -/
+theorem pass_err_f64_ieee (ks xs : List ℚ) (hlen : ks.length = xs.length) :
+    |accF (flP 53) ks xs 0 - dotQ ks xs| ≤ gam (1 / 2 ^ 53) ks.length * dotAbs ks xs :=
+  pass_err_f64 (flP 53) (1 / 2 ^ 53) (by positivity) (flP_relErr 53 (by norm_num)) ks xs hlen
+
+/-- `pass_err_f32` with IEEE binary64 accumulation and the IEEE binary32 final rounding -/
+theorem pass_err_f32_ieee (ks xs : List ℚ) (hlen : ks.length = xs.length) :
+    |flP 24 (accF (flP 53) ks xs 0) - dotQ ks xs|
+      ≤ 1 / 2 ^ 24 * (|dotQ ks xs| + gam (1 / 2 ^ 53) ks.length * dotAbs ks xs) + gam (1 / 2 ^ 53) ks.length * dotAbs ks xs :=
+  pass_err_f32 (flP 53) (flP 24) (1 / 2 ^ 53) (1 / 2 ^ 24) (by positivity) (by positivity)
+    (flP_relErr 53 (by norm_num)) (flP_relErr 24 (by norm_num)) ks xs hlen
+end IeeeInstances
 
 end Fir.C01
